@@ -345,6 +345,102 @@ Proof.
     rewrite He. cbn [bind]. eauto.
 Qed.
 
+(* ================= the monitors evaluate the theorems' conclusions ================= *)
+(* the model's verdict on a location always satisfies the monitor used on the implementation *)
+Theorem check_location_meets_spec b loc :
+  loccase_spec {| lc_binding := b; lc_loc := loc;
+                  lc_ok := is_ok (check_endpoint_location b loc);
+                  lc_out := match check_endpoint_location b loc with Ok l => l | _ => EmptyString end |} = true.
+Proof.
+  unfold loccase_spec. cbn [lc_binding lc_loc lc_ok lc_out].
+  destruct (check_endpoint_location b loc) as [l| |] eqn:E; cbn [is_ok].
+  - destruct (standard b) eqn:S.
+    + destruct (accepted_location_prefix _ _ _ E S) as [-> P]. unfold http_only in P. now rewrite seqb_refl, P.
+    + destruct (check_location_http_only _ _ _ E) as [_ B]. now rewrite (B S).
+  - unfold check_endpoint_location in E. destruct (standard b); [reflexivity|discriminate].
+  - exfalso. eapply check_location_never_panics; eauto.
+Qed.
+
+(* soundness of the monitor: what it accepts is the propositional conclusion *)
+Theorem loccase_spec_sound c :
+  loccase_spec c = true -> lc_ok c = true ->
+  (standard (lc_binding c) = true -> lc_out c = lc_loc c /\ http_only (lc_loc c) = true) /\
+  (standard (lc_binding c) = false -> lc_out c = EmptyString).
+Proof.
+  unfold loccase_spec. intros H Hok. rewrite Hok in H. destruct (standard (lc_binding c)).
+  - apply andb_true_iff in H as [H1 H2]. apply seqb_eq in H1. split; [|discriminate]. intros _. now split.
+  - split; [discriminate|]. intros _. destruct (lc_out c); [reflexivity|discriminate].
+Qed.
+
+Lemma any_eqb_refl x : any_eqb x x = true.
+Proof.
+  destruct x as [e|e]; cbn; unfold endpoint_eqb, indexed_eqb.
+  - now rewrite !seqb_refl.
+  - rewrite !seqb_refl, Z.eqb_refl. destruct (ie_response e), (ie_default e) as [[]|]; cbn; rewrite ?seqb_refl; reflexivity.
+Qed.
+
+(* every endpoint after one generation is "preserved" in the monitor's sense *)
+Lemma any_check_preserved p x x' :
+  any_endpoint_check x = Ok x' -> ep_preserved (p, x) (p, x') = true.
+Proof.
+  intros H. unfold ep_preserved. cbn [fst snd]. rewrite seqb_refl. cbn [andb].
+  destruct (standard (binding_of_any x)) eqn:S.
+  - rewrite (standard_endpoint_preserved _ _ H S). apply any_eqb_refl.
+  - destruct x as [e|e]; cbn [any_endpoint_check binding_of_any] in *.
+    + destruct (endpoint_check e) as [e1| |] eqn:E; cbn [bind] in H; try discriminate. inversion H; subst.
+      destruct (endpoint_check_http_only _ _ E) as (B & _ & N). destruct (N S) as [L R].
+      cbn [binding_of_any snd]. now rewrite B, seqb_refl, L, R.
+    + destruct (indexed_endpoint_check e) as [e1| |] eqn:E; cbn [bind] in H; try discriminate. inversion H; subst.
+      destruct (indexed_endpoint_check_http_only _ _ E) as (B & _ & _ & _ & N). destruct (N S) as [L R].
+      cbn [binding_of_any snd]. now rewrite B, seqb_refl, L, R.
+Qed.
+
+Lemma norm_endpoints_preserved : forall l l',
+  norm_endpoints l = Ok l' -> list_eqb ep_preserved l l' = true.
+Proof.
+  induction l as [|[p x] l IH]; intros l' H.
+  - inversion H. reflexivity.
+  - cbn [norm_endpoints] in H.
+    destruct (any_endpoint_check x) as [x'| |] eqn:E; cbn [bind] in H; try discriminate.
+    destruct (norm_endpoints l) as [r| |] eqn:E2; cbn [bind] in H; try discriminate.
+    inversion H; subst. cbn [list_eqb]. now rewrite (any_check_preserved p _ _ E), (IH _ eq_refl).
+Qed.
+
+Lemma list_eqb_refl {A} (eq : A -> A -> bool) :
+  (forall x, eq x x = true) -> forall l, list_eqb eq l l = true.
+Proof. intros H. induction l as [|x l IH]; [reflexivity|]. cbn. now rewrite H, IH. Qed.
+
+Lemma kd_eqb_refl k : kd_eqb k k = true.
+Proof. unfold kd_eqb. now rewrite seqb_refl, !(list_eqb_refl seqb seqb_refl). Qed.
+
+Lemma opt_Z_eq_refl o : opt_Z_eq o o = true.
+Proof. destruct o; cbn; [apply Z.eqb_refl|reflexivity]. Qed.
+
+Lemma ed_eqb_refl m : ed_eqb m m = true.
+Proof.
+  unfold ed_eqb. rewrite seqb_refl, !Z.eqb_refl. cbn [andb].
+  rewrite (list_eqb_refl _ (fun x => eq_trans (f_equal2 andb (seqb_refl (fst x)) (opt_Z_eq_refl (snd x))) eq_refl)).
+  rewrite (list_eqb_refl _ (fun x => eq_trans (f_equal2 andb (seqb_refl (fst x)) (Z.eqb_refl (snd x))) eq_refl)).
+  rewrite (list_eqb_refl _ (fun x => eq_trans (f_equal2 andb (seqb_refl (fst x)) (kd_eqb_refl (snd x))) eq_refl)).
+  rewrite (list_eqb_refl _ (fun x => eq_trans (f_equal2 andb (seqb_refl (fst x)) (any_eqb_refl (snd x))) eq_refl)).
+  reflexivity.
+Qed.
+
+(* the model always satisfies the metadata monitor: the theorem restated *)
+Theorem norm_meets_spec m :
+  zero_time <= round_ms (ed_valid_until m) < year10000 -> in_int64 (ed_cache_duration m) ->
+  mgcase_spec {| mg_in := m; mg_gen1 := ed_obs (norm m);
+                 mg_gen2 := match norm m with Ok m1 => ed_obs (norm m1) | _ => None end |} = true.
+Proof.
+  intros Ht Hd. unfold mgcase_spec. cbn [mg_in mg_gen1 mg_gen2].
+  destruct (norm m) as [m1| |] eqn:E; cbn [ed_obs]; try reflexivity.
+  rewrite (norm_idempotent _ _ Ht Hd E). cbn [ed_obs opt_ed_eq]. rewrite ed_eqb_refl.
+  destruct (norm_inv _ _ Ht Hd E) as (eps & He & ->). cbn.
+  rewrite seqb_refl, !Z.eqb_refl. cbn [andb].
+  rewrite (list_eqb_refl _ (fun x => eq_trans (f_equal2 andb (seqb_refl (fst x)) (kd_eqb_refl (snd x))) eq_refl)).
+  now rewrite (norm_endpoints_preserved _ _ He).
+Qed.
+
 (* ---------- non-vacuity ---------- *)
 Example check_location_examples :
   map (fun p => check_endpoint_location (fst p) (snd p))
